@@ -42,6 +42,7 @@ OF THIS SOFTWARE, EVEN IF ADVISED OF THE POSSIBILITY OF SUCH DAMAGE.
 #include "blake2/blamka-round-ref.h"
 #include "blake2/blake2-impl.h"
 #include "blake2/blake2.h"
+#include "verif_hooks.h"
 
 static void copy_block(block* dst, const block* src) {
 	memcpy(dst->v, src->v, sizeof(uint64_t) * ARGON2_QWORDS_IN_BLOCK);
@@ -183,5 +184,6 @@ void randomx_argon2_fill_segment_ref(const argon2_instance_t *instance,
 					curr_block, 1);
 			}
 		}
+		RANDOMX_VERIF_YIELD(RANDOMX_VERIF_SITE_ARGON_BLOCK);
 	}
 }
